@@ -198,6 +198,13 @@ func replaySpecial(path string) (int, bool) {
 		return 0, true
 	case len(f.Replay.StoreHistory) > 0:
 		u := mkUniverse(true)
+		if bu := mkBoundaryUniverse(); len(f.Replay.StoreHistory) > 0 {
+			for _, op := range bu.ops {
+				if op.label == f.Replay.StoreHistory[0] {
+					u = bu
+				}
+			}
+		}
 		var hist []int
 		for _, l := range f.Replay.StoreHistory {
 			k := -1
